@@ -79,6 +79,7 @@ func c20CompareKeyed(cs *mon.Case, sp *saml2.SAMLServiceProvider, enc string, lo
 		cs.Violation("panic", "panic: %v\n%s", pv, trunc(stack, 800))
 		return
 	}
+	cs.Sample(map[string]any{"validated": fmt.Sprintf("%v %s", verr == nil, val), "predecoded": fmt.Sprintf("%v %s", perr == nil, pre)})
 	switch {
 	case verr == nil && perr != nil:
 		cs.Outcome("validated-but-not-predecodable")
@@ -193,6 +194,7 @@ func shapeRoot(r *rand.Rand, doc string) (string, string) {
 
 func runC20(c *mon.Ctx) {
 	w := NewWorld(BaseTime(c.Seed))
+	w.Pool = &SPPool{}
 	// (a) conforming SSO responses in every layout
 	na := c.N(2500, 200000)
 	for k := 0; k < na; k++ {
